@@ -37,8 +37,8 @@ def tables(tier):
         dict(name="plscf", variant="pLSCF", F=t_pl, xs=xs, ys=[1, 5, 9], maxlen=3),
         dict(name="fdd", variant="FDD", F=fdd, xs=[1, 9, 14, 30], ys=[0], maxlen=3),
         # modifier already held: three clicks fit into three events (a new pick may have to move two slots)
-        dict(name="ssi_held", variant="SSI", F=t_ssi, xs=xs, ys=ys, maxlen=3, init_shift=True, keys=[]),
-        dict(name="plscf_held", variant="pLSCF", F=t_pl, xs=xs, ys=[1, 5, 9], maxlen=3, init_shift=True, keys=[]),
+        dict(name="ssi_held", variant="SSI", F=t_ssi, xs=[38, 81, 130], ys=[5, 9, 14], maxlen=3, init_shift=True, keys=[]),
+        dict(name="plscf_held", variant="pLSCF", F=t_pl, xs=[38, 81, 130], ys=[1, 5, 9], maxlen=3, init_shift=True, keys=[]),
     ]
     if tier == "thorough":
         out = [
@@ -122,8 +122,8 @@ def project(d, variant):
 def make_check(t):
     variant = t["variant"]
 
-    def check(col, d, act, pre, posts, raised, path):
-        pairs, mk, shift, lists_ok = project(d, variant)
+    def check(col, snap, act, pre, posts, raised, path):
+        pairs, mk, shift, lists_ok = snap.proj
         for i, post in enumerate(posts):
             bad = []
             if sorted(post["sel"]) != pairs:
@@ -242,33 +242,54 @@ def run_table(ctx, t):
     graph = walk.Graph(r.transitions)
     init = {"sel": [], "shift": bool(t.get("init_shift", False)), "len": 0}
 
+    # One real dialog per process; a "world" is a snapshot of its abstract state (the parallel lists and the modifier
+    # flag).  Before an event is delivered the snapshot is written back into the dialog and the dialog redraws its own
+    # marker from it (as it does after every click), so every branch of the walk starts from a consistent dialog.
+    shared = {}
+
+    def dialog():
+        if "d" not in shared:
+            shared["d"] = headless.new_dialog(make_algo(t), t["variant"])
+        return shared["d"]
+
+    class Snap:
+        def __init__(self, sel_freq, ind, shift):
+            self.sel_freq, self.ind, self.shift = list(sel_freq), list(ind), shift
+            self.proj = None
+
     def make_world():
-        d = headless.new_dialog(make_algo(t), t["variant"])
+        d = dialog()
+        d.sel_freq, d.shift_is_held = [], False
+        if d.plot == "FDD":
+            d.freq_ind = []
+        else:
+            d.pole_ind = []
         if t.get("init_shift"):
             headless.fire(d, {"name": "KeyPress", "key": "shift"}, Q)
-        return d
+        return Snap(d.sel_freq, d.freq_ind if d.plot == "FDD" else d.pole_ind, d.shift_is_held)
 
-    def apply(d, act):
+    def apply(snap, act):
+        d = dialog()
+        d.sel_freq, d.shift_is_held = list(snap.sel_freq), snap.shift
+        if d.plot == "FDD":
+            d.freq_ind = list(snap.ind)
+            d.plot_svPSD()
+        else:
+            d.pole_ind = list(snap.ind)
+            d.plot_stab(d.plot)
+        raised = False
         try:
             headless.fire(d, act, Q)
-            return d, False
         except AssertionError:
             raise
         except Exception:
-            return d, True
+            raised = True
+        new = Snap(d.sel_freq, d.freq_ind if d.plot == "FDD" else d.pole_ind, d.shift_is_held)
+        new.proj = project(d, t["variant"])
+        return new, raised
 
-    def clone(d):
-        # a fresh dialog (own figure, own canvas, own wiring) carrying the same selection state
-        n = headless.new_dialog(d.algo, d.plot)
-        n.shift_is_held = d.shift_is_held
-        n.sel_freq = list(d.sel_freq)
-        if d.plot == "FDD":
-            n.freq_ind = list(d.freq_ind)
-            n.plot_svPSD()
-        else:
-            n.pole_ind = list(d.pole_ind)
-            n.plot_stab(d.plot)
-        return n
+    def clone(snap):
+        return Snap(snap.sel_freq, snap.ind, snap.shift)
 
     with headless.light_plots():
         cols = walk.walk_parallel(graph, init, make_world, apply, make_check(t), Col, merge=True, clone=clone)
@@ -302,11 +323,21 @@ def run(ctx):
                        "selection marker is the dialog's own"]
     for t in tables(ctx.tier):
         run_table(ctx, t)
+    # direction B: recorded runs of the real dialog (longer sequences, larger tables) validated against TracePick.tla
+    from . import trace_pick
+
+    trace_pick.run(ctx)
     ctx.exhaustive = True
 
 
 def replay(ctx, body):
     headless.install()
+    if body.get("ptrace"):
+        from . import trace_pick
+
+        r = trace_pick.validate_one((0, body["trace_json"], ctx.scratch))
+        print(r)
+        return bool(r.get("accepted"))
     ts = {t["name"]: t for tier in ("quick", "thorough") for t in tables(tier)}
     t = ts[body["table"]]
     if body.get("handover"):
